@@ -48,6 +48,8 @@ func main() {
 		os.Exit(cmdBlocking(os.Args[2:]))
 	case "cfg":
 		os.Exit(cmdCfg(os.Args[2:]))
+	case "gosites":
+		os.Exit(cmdGoSites(os.Args[2:]))
 	case "callees":
 		os.Exit(cmdCallees(os.Args[2:]))
 	case "callpath":
